@@ -68,6 +68,9 @@ def tasks(tier, seed):
     # one-sided / biased / user-supplied stencils together with boundaries (Dirichlet data, default treatment)
     for d, order, st in ((1, 1, 'upwind'), (1, 2, 'forward'), (1, 2, 'backward'), (1, 3, 'upwind'), (2, 2, 'forward'), (2, 1, 'backward'), (1, 4, 'upwind')):
         T.append(('bc', d, order, 'dirichlet', False, st, None))
+        T.append(('bc', d, order, 'dirichlet', True, st, None))  # reduced-order closure next to a one-sided interior layout
+        if d == 1:
+            T.append(('bc', d, order, ['neumann', 'dirichlet'], True, st, None))
     for d, steps in ((1, [-2, 0, 1]), (1, [-1, 0, 2, 3]), (2, [-1, 0, 1, 2]), (1, [-3, -1, 0, 1]), (1, [0, 1, -1]), (1, [1, 2, -1, 0]), (1, [-1, 0, 3]), (1, [-3, 0, 1]), (2, [-1, 0, 1, 2, 5]), (1, [-2, -1, 0, 1, 4])):  # (offset sets with gaps included)
         T.append(('bc', d, len(steps) - d, 'dirichlet', False, None, steps))
     # Neumann data with an explicitly given order of the one-sided closure (above and below the interior order)
